@@ -43,6 +43,12 @@ fn normaliser_case(ctx: &Ctx, ch: &mut Ch) -> Outcome {
         ctx.class("outside (a)'s domain: evaluation does not end in a literal");
         return Ok(());
     }
+    // Normal-order normalisation re-evaluates duplicated arguments, so it can be exponentially
+    // slower than call-by-value evaluation; long evaluations are left out (bounded by work, not time).
+    if stats.steps > 4000 {
+        ctx.class("left out: the reference evaluation takes more than 4000 steps");
+        return Ok(());
+    }
     let text = &p.text;
     ctx.announce(false, None, text);
     let budget = crate::checks::c02::step_budget(ctx.tier);
@@ -90,8 +96,13 @@ fn reduction_case(ctx: &Ctx, ch: &mut Ch) -> Outcome {
         return Ok(());
     };
     // Keep to programs whose evaluation terminates (so that weak-head normalisation does).
-    if !matches!(typed::ref_eval(&k, 300_000).0, RefEval::Value(_)) {
+    let (rv, rstats) = typed::ref_eval(&k, 300_000);
+    if !matches!(rv, RefEval::Value(_)) {
         ctx.class("outside (b)'s domain: evaluation does not terminate with a value within the fuel");
+        return Ok(());
+    }
+    if rstats.steps > 4000 {
+        ctx.class("left out: the reference evaluation takes more than 4000 steps");
         return Ok(());
     }
     let text = p.text.clone();
@@ -291,8 +302,9 @@ pub fn def(tier: Tier) -> CheckDef {
             "pairs involving recursive definitions are excluded from (c, d): comparing two different recursive functions unfolds forever in any implementation without fuel",
             "fuel exhaustion of the reference and aborts / hangs of gram on divergent terms are inconclusive",
         ],
-        idle_limit_s: 180,
+        idle_limit_s: 45,
         needs_cli: false,
+        fuzz: None,
         parts: vec![
             Part {
                 name: "normaliser-vs-evaluator",
@@ -300,7 +312,7 @@ pub fn def(tier: Tier) -> CheckDef {
                 run: Box::new(|ctx, r| ctx.prop("normaliser-vs-evaluator", r, 300, 600, normaliser_case)),
                 replay: Some(Box::new(|ctx, inp| match inp {
                     ReplayInput::Choices(c) => normaliser_case(ctx, &mut Ch::new(c)),
-                    ReplayInput::Text(_) => Err(Failure::new("this part replays from choices", "")),
+                    _ => Err(Failure::new("this part replays from choices", "")),
                 })),
             },
             Part {
@@ -309,7 +321,7 @@ pub fn def(tier: Tier) -> CheckDef {
                 run: Box::new(|ctx, r| ctx.prop("reduction", r, 300, 600, reduction_case)),
                 replay: Some(Box::new(|ctx, inp| match inp {
                     ReplayInput::Choices(c) => reduction_case(ctx, &mut Ch::new(c)),
-                    ReplayInput::Text(_) => Err(Failure::new("this part replays from choices", "")),
+                    _ => Err(Failure::new("this part replays from choices", "")),
                 })),
             },
             Part {
@@ -318,7 +330,7 @@ pub fn def(tier: Tier) -> CheckDef {
                 run: Box::new(|ctx, r| ctx.prop("pairs", r, 300, 900, pair_case)),
                 replay: Some(Box::new(|ctx, inp| match inp {
                     ReplayInput::Choices(c) => pair_case(ctx, &mut Ch::new(c)),
-                    ReplayInput::Text(_) => Err(Failure::new("this part replays from choices", "")),
+                    _ => Err(Failure::new("this part replays from choices", "")),
                 })),
             },
         ],
